@@ -32,6 +32,21 @@ CHECKS = {
  "C18": dict(technique="runtime monitoring: round-trip law checker (parse-serialise identity both ways, wrong-length rejection, panic monitor) over 21 exported codecs with enumerated lengths and boundary field values",
              text="Laws L1-L3 held on every generated input for all codecs except the listed OpenVPN WrappedKey metadata finding; the rdp/wireguard/winbox wrong-length and username defects it found were repaired.",
              note="Size bounds are taken from the wire layouts / module constants; plaintext sub-codecs are driven only on states reachable through FromBytes.", ref="3/C18"),
+ "C03": dict(technique="runtime monitoring: duplex stream oracle over real loopback sockets (tcp/unix/tls upstreams, optional TLS termination) with scripted close orders, EOF-ordering checks, handler-return watchdog, goroutine and fd census; race detector in the thorough tier",
+             text="Held on every scripted session: both directions byte-exact, half-close observed while the opposite direction kept flowing, handler returned, upstream connections closed, no goroutine or fd left.",
+             note="Abrupt orders assert prefix integrity and cleanup only; kernel coalescing makes chunking best effort.", ref="3/C03"),
+ "C08": dict(technique="runtime monitoring: Go race detector (-race build, GOMAXPROCS 2/16) over a stress workload of overlapping connections through shared matchers/handlers/selection policies/buffer pool, plus per-connection stream and routing oracles, poison-on-release hook and a hook-free GOMAXPROCS=1 run",
+             text="No race report attributed to repository code, no foreign or poisoned byte at any consumer, every connection took its class's route, on all executions observed (counts and max overlap in the evidence).",
+             note="The race detector only sees executed access pairs; schedules are sampled, not enumerated.", ref="3/C08"),
+ "C09": dict(technique="runtime monitoring: UDP history checker over a scripted packet conn and real UDP socket storms (per-association own-subsequence order, at-most-once delivery, reply address, survival probe, fresh-association probe), child-process crash attribution, yield points in the server loop; race detector in the thorough tier",
+             text="Held on every scenario: no foreign/duplicated/reordered datagram, replies to the owner, loop alive after every storm, a fresh association after an ended one; the loop-crash defects were repaired.",
+             note="Datagram loss at teardown is allowed; 30 s idle expiry only in the thorough tier.", ref="3/C09"),
+ "C10": dict(technique="runtime monitoring: contract checker over exhaustively enumerated pool states (availability vectors {ok,unhealthy,failed,full}^n, n<=6/8) for all six policies, and porcupine linearizability checking of concurrent round_robin histories",
+             text="Exhaustive over the bounded pool-state space for the sequential contract; sampled concurrent histories all linearizable against the sequential round-robin model.",
+             note="Pool state is built through the verif-tagged export; ip_hash hash==0 corner (2^-32) out of reach.", ref="3/C10"),
+ "C13": dict(technique="runtime monitoring: exactly-once and stream oracle at the wrapped listener's Accept with scripted consumer pacing and close instants, poison-on-release hook, yield points at the hand-off, goroutine census; GOMAXPROCS=1 and race children",
+             text="Held on every run: fall-through connections delivered exactly once and intact (incl. after take/proxy_protocol/tls), consumed/rejected ones never delivered and closed, pending ones delivered xor closed at shutdown, no goroutine left.",
+             note="Connections still in the scripted listener's backlog at close were never accepted by layer4 and are excluded.", ref="3/C13"),
 }
 NOT_YET = {}
 ALL = ["C%02d" % i for i in range(1, 19)]
